@@ -123,6 +123,10 @@ func (c02) RunCase(c *core.Ctx) {
 			for rep := 0; rep < 3; rep++ {
 				rec := &orderRecorder{}
 				b := spec.Build(n, rec.hooks(c.R))
+				if rep == 2 {
+					warmAlt(c.R, b)
+					rec.seq = nil
+				}
 				var o *run.Outcome
 				if mode == ref.Parse {
 					o = run.Parse(b, data, nil)
